@@ -2,9 +2,12 @@ import LitexProofs.Mem
 import LitexProofs.Wishbone.Sram
 import LitexProofs.Wishbone.SramBurst
 import LitexProofs.Wishbone.Conv
+import LitexProofs.Wishbone.ConvBurst
 import LitexProofs.Wishbone.Remap
 import LitexProofs.Wishbone.ToCsr
 import LitexProofs.Wishbone.Cache
+import LitexProofs.Wishbone.ConvLive
+import LitexProofs.Wishbone.CacheLive
 /-
   C07 — Wishbone adapters and memories are transparent to the master: flat byte-addressable memory semantics.
 
@@ -302,6 +305,61 @@ example :
     ops ((cache c).over (latMem c.nbs M0)) (Cache.fmap c) ins = [{ adr := 1, we := false, sel := [true, true], dat := [0, 0] }] ∧
     ¬ Consistent c.nbm M0 (ops ((cache c).over (latMem c.nbs M0)) (Cache.fmap c) ins) := by decide
 
+/-! ## Bounded liveness: every presented request is acknowledged within an explicit number of cycles
+
+  `Within L w os`: the slave answers within `L` — the latency oracle `os` never stays silent for more than `L`
+  consecutive cycles (`w` = cycles of silence so far).  `ackedIn m r s os`: while the master keeps presenting `r`
+  from state `s`, some cycle of the run carries `ack`.  Together with `AckOnlyStrobed` and the classic hold rule
+  this is "each cycle is acknowledged exactly once".  (SRAM: `sram_one_ack_per_request`, the cycle after the
+  strobe.) -/
+
+/-- **DownConverter**: a request is acknowledged within `ratio·(L+1)` cycles (`ratio` over a zero-latency
+    slave; a skipped sub-word costs one cycle). -/
+theorem down_ack_within (c : DownCfg) (L : Nat) (M0 : Mem) (r : Req) (hact : r.active = true) (datR : List Byte)
+    (mem : Mem) (os : List Lat) (hW : Within L 0 os) (hlen : c.ratio * (L + 1) ≤ os.length) :
+    ackedIn ((downConv c).over (latMem c.nbs M0)) r ({ count := 0, datR := datR }, mem) os = true :=
+  Down.ack_within c L M0 r hact os _ mem 0 (Down.ratio_pos c) (Nat.zero_le _) hW (by simpa using hlen)
+
+/-- **UpConverter, Remapper, equal-width Converter**: purely combinational — the master is acknowledged in the
+    very cycle in which the slave acknowledges (`K = L + 1`). -/
+theorem up_ack_same_cycle (c : UpCfg) (r : Req) (rsp : Rsp) : (Up.toMaster c () r rsp).ack = rsp.ack := rfl
+
+theorem remap_ack_same_cycle (c : RemapCfg) (r : Req) (rsp : Rsp) : ((remapper c).toMaster () r rsp).ack = rsp.ack := rfl
+
+/-- **Wishbone2CSR**: acknowledged in the third cycle of a request (registered access) resp. the second
+    (un-registered access), whatever the CSR side returns. -/
+theorem wb2csr_ack_latency (c : ToCsrCfg) (init : Mem) (r : Req) (hact : r.active = true) (s : ToCsrState)
+    (cf : CsrFileState) (hs : s.fsm = if c.register then .idle else .writeRead) :
+    ackedIn (wb2csrOver c init) r (s, cf) (List.replicate (if c.register then 3 else 2) ()) = true := by
+  cases hreg : c.register <;>
+    simp [hreg] at hs <;>
+    simp [ackedIn, List.replicate, wb2csrOver, ToCsr.rsp, ToCsr.next, hreg, hs, hact]
+
+/-- **Cache**: a hit is acknowledged in the TEST_HIT cycle (the second cycle of the request). -/
+theorem cache_hit_ack (c : CacheCfg) (s : CacheState) (r : Req) (rsp : Rsp) (hf : s.fsm = .testHit)
+    (hh : Cache.hit c s r = true) : (Cache.toMaster c s r rsp).ack = true := by
+  simp [Cache.toMaster, Cache.mack, hf, hh]
+
+/-- **Cache**: from IDLE every request — hit, clean miss, or miss with dirty eviction — is acknowledged within
+    `3 + 2·2^wordbits·(L+1)` cycles when the slave answers each of the `2^wordbits` evicted and refilled words
+    within `L`. -/
+theorem cache_ack_within (c : CacheCfg) (L : Nat) (M0 : Mem) (r : Req) (hact : r.active = true) (s : CacheState)
+    (mem : Mem) (hidle : s.fsm = .idle) (htags : s.tags.length = 2 ^ c.linebits)
+    (os : List Lat) (hW : Within L 0 os) (hlen : 3 + 2 * (2 ^ c.wordbits * (L + 1)) ≤ os.length) :
+    ackedIn ((cache c).over (latMem c.nbs M0)) r (s, mem) os = true :=
+  Cache.ack_within c L M0 r hact os s mem 0 ⟨htags, by simp only [hidle]⟩ (Nat.zero_le _) hW
+    (by rw [Cache.idle_bound c L s r 0 hidle]; exact hlen)
+
+/-- Non-vacuity of the bound (and tightness): 16-bit master over an 8-bit slave that answers every second cycle
+    (`L = 1`), ratio 2 ⇒ acknowledged within 4 cycles, and not within 3. -/
+example :
+    let os : List Lat := [⟨false, []⟩, ⟨true, []⟩, ⟨false, []⟩, ⟨true, []⟩]
+    let r : Req := { cyc := true, stb := true, we := false, adr := 1, sel := [true, true], dat := [], cti := 0, bte := 0 }
+    Within 1 0 os ∧
+    ackedIn ((downConv { nbs := 1, cbits := 1 }).over (latMem 1 (fun x => x))) r ({ count := 0, datR := [0, 0] }, fun x => x) os = true ∧
+    ackedIn ((downConv { nbs := 1, cbits := 1 }).over (latMem 1 (fun x => x))) r ({ count := 0, datR := [0, 0] }, fun x => x)
+      (os.take 3) = false := by decide
+
 /-! ## Compositions with the real SRAM model (the SoC's usual stacks) -/
 
 /-- **`master → DownConverter → SRAM` is a flat byte memory** (`converter_over_sram`, narrowing direction).
@@ -326,6 +384,59 @@ theorem down_over_sram_refines (c : DownCfg) (sc : SramCfg) (init : List Byte) (
         exact Down.mod_split c.ratio dm a k hk hdmpos)
       (fun _ => True) (Sram.NoBurst sc) (fun _ _ _ _ => by simp [Sram.NoBurst, Sram.adrBurst, hnb0]) hS).run _
     ⟨Down.ratio_pos c, rfl, Sram.inv_init sc init⟩ ins hm (fun _ _ => trivial)
+
+/-- **`burst master → DownConverter → bursting SRAM` is a flat byte memory** (`down_burst`, full strength): linear
+    bursts of any length are forwarded as one linear burst of sub-words (the SRAM's address counter serves them,
+    one sub-word per cycle), wrapping bursts *of any length* are degraded to classic sub-word cycles by the
+    converter's guard, classic cycles (with skipped sub-words) in between, arbitrary gaps between bursts; the
+    master's addresses fit `awm` bits with `ratio·2^awm ≤ 2^aw`.  Composition of `Down.brefines` with
+    `Sram.brefines` — the slave-side obligations (`Expect`) are part of the refinement relation. -/
+theorem down_burst_over_sram_refines (c : DownCfg) (sc : SramCfg) (init : List Byte) (n dm awm : Nat)
+    (hnb : sc.nb = c.nbs) (hrw : sc.readOnly = false) (hb : sc.burst = true) (haw4 : 4 ≤ sc.aw)
+    (hdepth : sc.depth = 2 ^ n) (haw : n ≤ sc.aw) (hdm : sc.depth = c.ratio * dm)
+    (hfit : c.ratio * 2 ^ awm ≤ 2 ^ sc.aw)
+    (ins : List (Req × Unit)) (hm : BurstMaster ((downConv c).over (sram sc init)) false ins)
+    (hadr : ∀ i ∈ ins, i.1.adr < 2 ^ awm) :
+    Consistent c.nbm (Mem.ofList (Sram.initMem sc init)) (ops ((downConv c).over (sram sc init)) (· % dm) ins) ∧
+    AckOnlyStrobed ((downConv c).over (sram sc init)) ins := by
+  have hd : 0 < sc.depth := by rw [hdepth]; exact Nat.two_pow_pos n
+  have hdmpos : 0 < dm := by
+    rcases Nat.eq_zero_or_pos dm with h | h
+    · rw [h, Nat.mul_zero] at hdm; omega
+    · exact h
+  have hS := Sram.brefines sc hd hrw hb haw4 init
+  rw [hnb] at hS
+  exact (Down.brefines c (sram sc init) sc.idx (· % dm) (Sram.BInv sc)
+      (fun a k hk => by
+        simp only [Sram.idx_pow2 sc n hdepth haw, hdm]
+        exact Down.mod_split c.ratio dm a k hk hdmpos)
+      false (fun i => i.1.adr < 2 ^ awm) _
+      (fun s r _ hcnt hP => by
+        show s.count + c.ratio * r.adr < 2 ^ sc.aw
+        have hP' : r.adr < 2 ^ awm := hP
+        calc s.count + c.ratio * r.adr < c.ratio + c.ratio * r.adr := by omega
+          _ = c.ratio * (r.adr + 1) := by rw [Nat.mul_add, Nat.mul_one, Nat.add_comm]
+          _ ≤ c.ratio * 2 ^ awm := Nat.mul_le_mul_left _ hP'
+          _ ≤ 2 ^ sc.aw := hfit) hS).run ins _ .free _
+    ⟨Down.ratio_pos c, _, .free, Sram.binv_init sc init, rfl, rfl, rfl⟩ hm hadr
+
+/-- Non-vacuity: 16-bit master over an 8-bit bursting SRAM of 16 words.  A linear write burst of 3 beats from 2
+    (6 sub-words: 2 cycles for the first, then one per cycle), a wrap-4 read burst 3, 0, 1 (degraded to classic
+    sub-word cycles) and a classic partial write with a skipped sub-word. -/
+example :
+    let c : DownCfg := { nbs := 1, cbits := 1 }
+    let sc : SramCfg := { nb := 1, depth := 16, aw := 4, readOnly := false, burst := true }
+    let q (we : Bool) (a : Nat) (sel : List Bool) (d : List Byte) (cti bte n : Nat) : List (Req × Unit) :=
+      List.replicate n ({ cyc := true, stb := true, we := we, adr := a, sel := sel, dat := d, cti := cti, bte := bte }, ())
+    let ins := q true 2 [true, true] [0x20, 0x21] 2 0 3 ++ q true 3 [true, true] [0x30, 0x31] 2 0 2 ++
+               q true 4 [true, true] [0x40, 0x41] 7 0 2 ++ [(Req.idle, ())] ++
+               q false 3 [true, true] [] 2 1 4 ++ q false 0 [true, true] [] 2 1 4 ++ q false 1 [true, true] [] 7 1 4 ++
+               q true 2 [false, true] [0x99, 0x77] 0 0 3 ++ q false 2 [true, true] [] 0 0 4
+    BurstMaster ((downConv c).over (sram sc [])) false ins ∧
+    (ops ((downConv c).over (sram sc [])) (· % 8) ins).map (fun op => (op.adr, op.we, op.dat)) =
+      [(2, true, [0x20, 0x21]), (3, true, [0x30, 0x31]), (4, true, [0x40, 0x41]),
+       (3, false, [0x30, 0x31]), (0, false, [0, 0]), (1, false, [0, 0]),
+       (2, true, [0x99, 0x77]), (2, false, [0x20, 0x77])] := by decide
 
 /-- **`master → UpConverter → SRAM` is a flat byte memory** (`converter_over_sram`, widening direction): the
     master sees `ratio · 2^n` narrow words.  Holds for bursting SRAM buses too, whatever burst tags the master
@@ -360,6 +471,32 @@ example :
     Classic ((upConv c).over (sram sc [])) ins ∧
     (ops ((upConv c).over (sram sc [])) id ins).map (fun op => (op.adr, op.we, op.dat)) =
       [(2, true, [0xA2]), (3, true, [0xB3]), (4, true, [0xC4]), (3, false, [0xB3]), (5, false, [0])] := by decide
+
+/-- **`master → Remapper → SRAM` is a flat byte memory at the translated address** (non-bursting SRAM bus: the
+    remapper forwards the burst tags): decoding `idx ∘ mapAdr`. -/
+theorem remap_over_sram_refines (c : RemapCfg) (sc : SramCfg) (init : List Byte) (hd : 0 < sc.depth)
+    (hrw : sc.readOnly = false) (hnb0 : sc.burst = false)
+    (ins : List (Req × Unit)) (hm : Classic ((remapper c).over (sram sc init)) ins) :
+    Consistent sc.nb (Mem.ofList (Sram.initMem sc init))
+      (ops ((remapper c).over (sram sc init)) (fun a => sc.idx (Remap.mapAdr c a)) ins) ∧
+    AckOnlyStrobed ((remapper c).over (sram sc init)) ins := by
+  rw [remapper_eq] at hm ⊢
+  exact (AdrAdapter.refines (Remap.mapAdr c) (sram sc init) sc.idx sc.nb (Sram.Inv sc) (fun _ => True) (Sram.NoBurst sc)
+      (fun _ _ _ => by simp [Sram.NoBurst, Sram.adrBurst, hnb0]) (Sram.refines sc hd hrw init)).run _
+    (Sram.inv_init sc init) ins hm (fun _ _ => trivial)
+
+/-
+  Open (stated, not proved — covered by the tie and the monitor; the probe of finding C07-wb2csr-no-byte-enables
+  runs the bridge against a real `CSRBank`):
+
+  theorem wb2csr_over_csrbank_refines_partial_open (c : ToCsrCfg) (b : Csr.BankCfg) (hfit : b.Fits)
+      (hplain : every register of `b` is a one-word CSRStorage without device writes) (ins) (Classic, FullSelWrites,
+      addresses inside the bank) :
+      Consistent c.nb (bank words) (ops (Wishbone2CSR over Csr.bank b) (ToCsr.adrMap c) ins)
+  -- `wb2csr_refines_partial` proves the same over `csrFile` (a register file with the CSR bus timing: data one
+  -- cycle after the address, whole-word write on `we`); linking `csrFile` to b-c12's `Csr.bank` for banks of plain
+  -- one-word storage registers (via `bank_write_exact` / `bank_read_storage`) is not done.
+-/
 
 /-- **`master → Cache → SRAM` is a flat byte memory** (`_partial`, same hypothesis as `cache_refines_mem_partial`):
     the real SRAM model (two-cycle classic slave that writes in both cycles) fills the cache's slave address space
